@@ -23,7 +23,9 @@ Next == /\ ntok < MaxTok /\ st.ph # "bad"
         /\ ntok' = ntok + 1
 Spec == Init /\ [][Next]_vars
 
-Res == IF Accepting(st) THEN [ok |-> TRUE, paths |-> Expand(Comps(st))] ELSE [ok |-> FALSE, paths |-> <<>>]
+Res == IF Accepting(st) THEN [ok |-> TRUE, comps |-> Comps(st)] ELSE [ok |-> FALSE, comps |-> <<>>]
+Small == Res.ok /\ NumPaths(Res.comps) <= MaxPaths          \* only these are expanded
+ResPaths == Expand(Res.comps)
 
 \* the incremental machine is the fold, and the fold is the denotation
 MachineIsFold == st = Run(inp)
@@ -31,18 +33,17 @@ MachineIsDenotation == Res = Denote(inp)
 \* the three hardening marks are one spelling
 SpellingIrrelevant == \A m \in HardMarks : Parse(Respell(inp, m)) = Res
 \* number of paths = product over components of the number of alternatives; no range syntax => one path
-CountLemma == Res.ok => /\ Len(Res.paths) = NumPaths(Comps(st))
-                        /\ (IsSinglePath(inp) => Len(Res.paths) = 1)
+CountLemma == /\ Small => Len(ResPaths) = NumPaths(Res.comps)
+              /\ IsSinglePath(inp) => NumPaths(Res.comps) = 1
 \* every path has one index per component, every index is a legal child number
-Shape == Res.ok => \A i \in 1..Len(Res.paths) :
-            /\ Len(Res.paths[i]) = Len(Comps(st))
-            /\ \A j \in 1..Len(Res.paths[i]) : Res.paths[i][j].v \in 0..MaxIndex /\ Res.paths[i][j].h \in BOOLEAN
-\* paths are listed in dictionary order of (component alternatives), so there is no duplicate
-\* unless an alternative is written twice
+Shape == Small => \A i \in 1..Len(ResPaths) :
+            /\ Len(ResPaths[i]) = Len(Res.comps)
+            /\ \A j \in 1..Len(ResPaths[i]) : ResPaths[i][j].v \in 0..MaxIndex /\ ResPaths[i][j].h \in BOOLEAN
 BadIsSticky == st.ph = "bad" => ~Res.ok
 
-Emit == (st'.ph # "bad" /\ (~Accepting(st') \/ NumPaths(Comps(st')) <= MaxPaths)) =>
-          PrintT(ToJson([k |-> "rng", s |-> inp',
-                         ok |-> Accepting(st'),
-                         paths |-> IF Accepting(st') THEN Expand(Comps(st')) ELSE <<>>]))
+Emit == LET acc == Accepting(st')
+            small == acc /\ NumPaths(Comps(st')) <= MaxPaths IN
+        (st'.ph # "bad" /\ (~acc \/ small)) =>
+          PrintT(ToJson([k |-> "rng", s |-> inp', ok |-> acc,
+                         paths |-> IF acc THEN Expand(Comps(st')) ELSE <<>>]))
 =============================================================================
